@@ -9,16 +9,16 @@ import (
 // and records, with (event sequence, simulated time) stamps, every byte the
 // library writes. It never blocks and shares no code with the library.
 type Peer struct {
-	w     *World
-	C     *Conn // the peer's endpoint
-	Name  string
-	buf   []byte
-	marks []mark // stamp of every received chunk, by end offset
-	taken int    // messages handed out by Take
-	EOF   bool
+	w      *World
+	C      *Conn // the peer's endpoint
+	Name   string
+	buf    []byte
+	marks  []mark // stamp of every received chunk, by end offset
+	taken  int    // messages handed out by Take
+	EOF    bool
 	EOFSeq uint64
-	EOFAt time.Time
-	sent  int
+	EOFAt  time.Time
+	sent   int
 }
 
 type mark struct {
